@@ -1,14 +1,382 @@
 (** Proofs about FV.Mask (C18). *)
-From Coq Require Import List ZArith Bool Arith Lia.
+From Coq Require Import List ZArith Bool Arith Lia Permutation.
 From FV Require Import Base Arr Mask.
 From FVP Require Import Arr_proofs.
 Import ListNotations.
 
-Lemma compressed_spec : forall A (a : arr A) (m : arr bool) (o : order),
-  ashape m = ashape a ->
-  to_compressed a (OwnBits m) o MUnset
-  = map (aget a) (filter (fun idx => negb (aget m idx)) (indices o (ashape a))).
+(** * Small list facts *)
+
+Lemma nth_map_Some : forall A (l : list A) i d, i < length l ->
+  nth i (map Some l) None = Some (nth i l d).
 Proof.
-  intros A a m o Hs. unfold to_compressed. simpl. unfold ravel. rewrite Hs, map_map.
-  apply compress_map_filter.
+  induction l as [|x l IH]; simpl; intros i d Hi; [lia|].
+  destruct i; auto. apply IH. lia.
+Qed.
+
+Lemma nth_map_negb : forall l i, nth i (map negb l) false = negb (nth i l true).
+Proof. intros. change false with (negb true). apply map_nth. Qed.
+
+Lemma NoDup_map_inj_in : forall X Y (f : X -> Y) l, NoDup l ->
+  (forall x y, In x l -> In y l -> f x = f y -> x = y) -> NoDup (map f l).
+Proof.
+  induction l as [|a l IH]; simpl; intros Hn Hinj; [constructor|].
+  inversion Hn as [|? ? Hna Hnl]; subst. constructor.
+  - intro Hin. apply in_map_iff in Hin. destruct Hin as [y [E Hy]].
+    assert (y = a) by (apply Hinj; auto). subst. contradiction.
+  - apply IH; auto.
+Qed.
+
+Lemma filter_length_perm : forall X (f : X -> bool) l l', Permutation l l' ->
+  length (filter f l) = length (filter f l').
+Proof.
+  intros X f l l' H. induction H; simpl; auto.
+  - destruct (f x); simpl; auto.
+  - destruct (f x); destruct (f y); simpl; auto.
+  - congruence.
+Qed.
+
+Lemma indices_NoDup : forall o sh, NoDup (indices o sh).
+Proof.
+  intros o sh. unfold indices. apply NoDup_map_inj_in; [apply seq_NoDup|].
+  intros x y Hx Hy E. apply in_seq in Hx. apply in_seq in Hy.
+  rewrite <- (flat_unflat o sh x), <- (flat_unflat o sh y), E by lia. reflexivity.
+Qed.
+
+(** the two memory orders enumerate the same multi-indices *)
+Lemma indices_perm : forall o1 o2 sh, Permutation (indices o1 sh) (indices o2 sh).
+Proof.
+  intros. apply NoDup_Permutation; try apply indices_NoDup.
+  intros idx. split; intro H; apply indices_complete; eapply indices_in_range; eauto.
+Qed.
+
+(** * to_compressed *)
+
+(** the mask [m] is the one the helpers use: the array is a MaskedArray with mask [m]
+    (masked-array call form) or a plain array and [m] is passed as argument (separate-mask form) *)
+Definition uses_mask (w : ownmask) (arg : mspec) (m : arr bool) : Prop :=
+  w = OwnBits m \/ (w = Plain /\ arg = MBits m).
+
+(** no entry is masked: plain array with mask argument None / FLEX / NONE / nomask, or a
+    MaskedArray with nomask *)
+Definition uses_no_mask (w : ownmask) (arg : mspec) : Prop :=
+  w = OwnNomask \/ (w = Plain /\ forall m, arg <> MBits m).
+
+Definition unmasked_indices (o : order) (m : arr bool) : list index :=
+  filter (fun idx => negb (aget m idx)) (indices o (ashape m)).
+
+(** number of unmasked entries (counted in C order; independent of the order, see below) *)
+Definition unmasked_count (m : arr bool) : nat := length (unmasked_indices OC m).
+
+Lemma to_compressed_bits : forall A (a : arr A) m o w arg, uses_mask w arg m ->
+  to_compressed a w o arg = compress (map negb (ravel o m)) (ravel o a).
+Proof. intros A a m o w arg [->|[-> ->]]; reflexivity. Qed.
+
+Lemma to_compressed_nomask : forall A (a : arr A) o w arg, uses_no_mask w arg ->
+  to_compressed a w o arg = ravel o a.
+Proof.
+  intros A a o w arg [->|[-> Hn]]; [reflexivity|].
+  unfold to_compressed. simpl. destruct arg; simpl; auto. exfalso. eapply Hn; eauto.
+Qed.
+
+Lemma compressed_spec : forall A (a : arr A) (m : arr bool) (o : order) w arg,
+  uses_mask w arg m -> ashape m = ashape a ->
+  to_compressed a w o arg = map (aget a) (unmasked_indices o m).
+Proof.
+  intros A a m o w arg Hu Hs. rewrite (to_compressed_bits _ a m o w arg Hu).
+  unfold ravel, unmasked_indices. rewrite Hs, map_map. apply compress_map_filter.
+Qed.
+
+Lemma unmasked_count_order : forall o m, length (unmasked_indices o m) = unmasked_count m.
+Proof. intros. unfold unmasked_count, unmasked_indices. apply filter_length_perm, indices_perm. Qed.
+
+Lemma compressed_length : forall A (a : arr A) (m : arr bool) (o : order) w arg,
+  uses_mask w arg m -> ashape m = ashape a ->
+  length (to_compressed a w o arg) = unmasked_count m.
+Proof.
+  intros. erewrite compressed_spec by eauto. rewrite map_length. apply unmasked_count_order.
+Qed.
+
+Lemma compressed_full_length : forall A (a : arr A) o w arg, uses_no_mask w arg ->
+  to_compressed a w o arg = map (aget a) (indices o (ashape a)).
+Proof. intros. rewrite to_compressed_nomask by auto. reflexivity. Qed.
+
+(** * Round trip *)
+
+Theorem roundtrip : forall A (a : arr A) (m : arr bool) (o : order) w arg kw,
+  uses_mask w arg m -> ashape m = ashape a ->
+  exists d,
+    from_compressed (to_compressed a w o arg) (ashape a) o (MBits m) kw = FcMasked d (Some m)
+    /\ ashape d = ashape a
+    /\ forall idx, in_range (ashape a) idx ->
+         (aget m idx = false -> aget d idx = Some (aget a idx))
+         /\ (aget m idx = true -> aget d idx = None).
+Proof.
+  intros A a m o w arg kw Hu Hs. rewrite (to_compressed_bits _ a m o w arg Hu).
+  unfold from_compressed. eexists. split; [reflexivity|]. split; [reflexivity|].
+  intros idx Hi. rewrite of_list_get.
+  pose proof (flat_lt o _ _ Hi) as Hk. set (k := flat o (ashape a) idx) in *.
+  assert (Hkeep : nth k (map negb (ravel o m)) false = negb (aget m idx)).
+  { rewrite nth_map_negb. rewrite ravel_nth by (rewrite Hs; auto).
+    rewrite Hs. unfold k. rewrite unflat_flat by auto. reflexivity. }
+  assert (Hlen : length (map negb (ravel o m)) = length (map Some (ravel o a))).
+  { rewrite !map_length, !ravel_length, Hs. reflexivity. }
+  rewrite <- compress_map. split; intro Hm.
+  - rewrite scatter_compress_kept by (auto; rewrite Hkeep, Hm; reflexivity).
+    rewrite (nth_map_Some _ _ _ (aget a idx)) by (rewrite ravel_length; auto).
+    rewrite ravel_nth by auto. unfold k. rewrite unflat_flat by auto. reflexivity.
+  - apply scatter_dropped. rewrite Hkeep, Hm. reflexivity.
+Qed.
+
+(** the unmasked forms: nothing is dropped, the expansion is the plain reshape (a MaskedArray
+    without masked entries when nomask / kwargs are given); Mask.NONE with kwargs is refused *)
+Theorem roundtrip_unmasked : forall A (a : arr A) (o : order) w arg kw,
+  uses_no_mask w arg ->
+  let eff := effective_mask w arg in
+  match from_compressed (to_compressed a w o arg) (ashape a) o eff kw with
+  | FcErr => kw = true /\ eff = MNone
+  | FcPlain d =>
+      kw = false /\ is_mask eff = false /\ ashape d = ashape a
+      /\ forall idx, in_range (ashape a) idx -> aget d idx = Some (aget a idx)
+  | FcMasked d mm =>
+      mm = None /\ (kw = true \/ eff = MNomask) /\ ashape d = ashape a
+      /\ forall idx, in_range (ashape a) idx -> aget d idx = Some (aget a idx)
+  end.
+Proof.
+  intros A a o w arg kw Hu eff. rewrite to_compressed_nomask by auto.
+  assert (Hget : forall idx, in_range (ashape a) idx ->
+            aget (of_list o (ashape a) (map Some (ravel o a)) None) idx = Some (aget a idx)).
+  { intros idx Hi. rewrite of_list_get.
+    rewrite (nth_map_Some _ _ _ (aget a idx)) by (rewrite ravel_length; apply flat_lt; auto).
+    rewrite ravel_nth by (apply flat_lt; auto). rewrite unflat_flat by auto. reflexivity. }
+  assert (Heff : forall m, eff <> MBits m).
+  { intros m. unfold eff. destruct Hu as [->|[-> Hn]]; simpl; [discriminate|apply Hn]. }
+  unfold from_compressed. destruct eff eqn:E; try (exfalso; eapply Heff; reflexivity);
+    destruct kw; simpl; auto 10.
+Qed.
+
+(** * prepare *)
+
+Theorem prepare_fixed_mask : forall A sh o form (vals : list A) d (m : arr bool),
+  ashape m = sh ->
+  snd (prepare_mask sh o form vals d None (MBits m)) = Some (ravel OC m).
+Proof.
+  intros A sh o form vals d m Hs. unfold prepare_mask. simpl.
+  destruct form; simpl; auto. f_equal. subst sh. apply ravel_ext. apply of_list_ravel_eq.
+Qed.
+
+Theorem prepare_nomask : forall A sh o form (vals : list A) d,
+  exists bits, snd (prepare_mask sh o form vals d None MNomask) = Some bits
+    /\ length bits = size sh /\ forall b, In b bits -> b = false.
+Proof.
+  intros A sh o form vals d. unfold prepare_mask. simpl.
+  assert (Hrep : forall x, In x (repeat false (size sh)) -> x = false)
+    by (intros x Hx; eapply repeat_spec; eauto).
+  destruct form; simpl.
+  - eexists. split; [reflexivity|]. split.
+    + rewrite ravel_length. reflexivity.
+    + intros x Hx. unfold ravel in Hx. apply in_map_iff in Hx. destruct Hx as [idx [E Hidx]].
+      subst x. simpl.
+      destruct (nth_in_or_default (flat o sh idx) (repeat false (size sh)) false) as [Hin|Hd]; auto.
+  - eexists. split; [reflexivity|]. split; [apply repeat_length|exact Hrep].
+  - eexists. split; [reflexivity|]. split; [apply repeat_length|exact Hrep].
+Qed.
+
+(** the data of a prepared payload: flat payloads are laid out in the grid's order *)
+Theorem prepare_data : forall A sh o form (vals : list A) d w im idx,
+  length vals = size sh -> in_range sh idx ->
+  nth (flat OC sh idx) (fst (prepare_mask sh o form vals d w im)) d
+  = nth (match form with Flat => flat o sh idx | _ => flat OC sh idx end) vals d.
+Proof.
+  intros A sh o form vals d w im idx Hl Hi. unfold prepare_mask. simpl.
+  destruct form; simpl; auto.
+  rewrite ravel_nth by (simpl; apply flatC_lt; auto). simpl.
+  rewrite unflatC_flatC by auto. reflexivity.
+Qed.
+
+(** plain data under FLEX / NONE stays unmasked *)
+Theorem prepare_unmasked : forall A sh o form (vals : list A) d im,
+  mask_specified im = false -> snd (prepare_mask sh o form vals d None im) = None.
+Proof. intros A sh o form vals d im H. unfold prepare_mask. rewrite H. reflexivity. Qed.
+
+(** * Acceptance relation *)
+
+Definition all_false (a : arr bool) : Prop :=
+  forall idx, in_range (ashape a) idx -> aget a idx = false.
+
+(** equality of two explicit masks after accounting for the grid layouts; a side without grid
+    has no layout of its own (it adopts the other side's grid): direct comparison *)
+Definition canon_eq (c p : arr bool) (cg pg : option gspec) : Prop :=
+  match cg, pg with
+  | Some g1, Some g2 => arr_eq (to_canonical g1 c) (to_canonical g2 p)
+  | _, _ => arr_eq c p
+  end.
+
+(** The documented relation "consumer with mask spec [c] (grid [cg]) accepts a producer with
+    mask spec [p] (grid [pg])".  No rule for an unset producer mask, nor for an unset consumer. *)
+Inductive doc_accepts : mspec -> option gspec -> mspec -> option gspec -> Prop :=
+| DA_flex : forall p cg pg, p <> MUnset -> doc_accepts MFlex cg p pg
+| DA_none : forall cg pg, doc_accepts MNone cg MNone pg
+| DA_nomask : forall cg pg, doc_accepts MNomask cg MNomask pg
+| DA_nomask_bits : forall p cg pg, all_false p -> doc_accepts MNomask cg (MBits p) pg
+| DA_bits_nomask : forall c cg pg, all_false c -> doc_accepts (MBits c) cg MNomask pg
+| DA_bits : forall c p cg pg, canon_eq c p cg pg -> doc_accepts (MBits c) cg (MBits p) pg.
+
+Lemma any_true_false_iff : forall a, any_true a = false <-> all_false a.
+Proof.
+  intros a. unfold any_true, all_false. split.
+  - intros H idx Hi. destruct (aget a idx) eqn:E; auto.
+    assert (Hex : existsb (fun b => b) (ravel OC a) = true).
+    { apply existsb_exists. exists true. split; auto. unfold ravel. apply in_map_iff.
+      exists idx. split; auto. apply indices_complete; auto. }
+    congruence.
+  - intros H. destruct (existsb (fun b => b) (ravel OC a)) eqn:E; auto.
+    apply existsb_exists in E. destruct E as [b [Hin Hb]]. subst b.
+    unfold ravel in Hin. apply in_map_iff in Hin. destruct Hin as [idx [E Hidx]].
+    rewrite H in E by (eapply indices_in_range; eauto). discriminate.
+Qed.
+
+Lemma flip_loop_shape : forall A inc i (a : arr A), ashape (flip_loop i inc a) = ashape a.
+Proof.
+  induction inc as [|b r IH]; intros i a; simpl; auto.
+  rewrite IH. destruct b; reflexivity.
+Qed.
+
+Lemma to_canonical_rank : forall A g (a : arr A),
+  length (ashape (to_canonical g a)) = length (ashape a).
+Proof.
+  intros A g a. destruct g as [|r inc]; simpl; auto.
+  rewrite flip_loop_shape. destruct (r && (1 <? length (ashape a))); simpl; auto.
+  apply rev_length.
+Qed.
+
+Lemma masks_equal_bits : forall t o tg og,
+  masks_equal (MBits t) (MBits o) tg og = true <-> canon_eq t o tg og.
+Proof.
+  intros t o tg og. unfold masks_equal, canon_eq. simpl.
+  destruct (length (ashape t) =? length (ashape o)) eqn:El; simpl.
+  - destruct tg, og; apply barr_eqb_spec.
+  - apply Nat.eqb_neq in El. split; [discriminate|]. intros H. exfalso. apply El.
+    destruct tg as [g1|], og as [g2|]; destruct H as [Hs _];
+      try (rewrite Hs; reflexivity).
+    rewrite <- (to_canonical_rank _ g1 t), <- (to_canonical_rank _ g2 o), Hs. reflexivity.
+Qed.
+
+Theorem acceptance_table : forall c p cg pg,
+  masks_compatible c p false cg pg = true <-> doc_accepts c cg p pg.
+Proof.
+  intros c p cg pg. split.
+  - intros H. destruct c as [| | | |cb]; destruct p as [| | | |pb]; simpl in H; try discriminate;
+      try (constructor; discriminate); try constructor.
+    + unfold masks_compatible, masks_equal in H. simpl in H. apply any_true_false_iff.
+      destruct (any_true pb); simpl in H; auto; discriminate.
+    + unfold masks_compatible, masks_equal in H. simpl in H. apply any_true_false_iff.
+      destruct (any_true cb); simpl in H; auto; discriminate.
+    + apply masks_equal_bits. exact H.
+  - intros H. inversion H; subst; simpl.
+    + destruct p; auto; congruence.
+    + reflexivity.
+    + reflexivity.
+    + unfold masks_compatible, masks_equal. simpl. apply any_true_false_iff in H0. rewrite H0. reflexivity.
+    + unfold masks_compatible, masks_equal. simpl. apply any_true_false_iff in H0. rewrite H0. reflexivity.
+    + apply masks_equal_bits. assumption.
+Qed.
+
+(** both directions of the check ask the same question *)
+Theorem compatible_direction : forall c p cg pg,
+  masks_compatible p c true pg cg = masks_compatible c p false cg pg.
+Proof. reflexivity. Qed.
+
+Theorem unset_producer_refused : forall c cg pg, masks_compatible c MUnset false cg pg = false.
+Proof. reflexivity. Qed.
+
+(** Info.accepts, consumer side: a consumer whose own mask is set accepts exactly by the table *)
+Theorem accepts_consumer : forall c p cg pg, c <> MUnset ->
+  (accepts_mask c cg p pg false = true <-> doc_accepts c cg p pg).
+Proof.
+  intros c p cg pg Hc. rewrite <- acceptance_table. unfold accepts_mask.
+  destruct c; try congruence; simpl; rewrite orb_false_r; reflexivity.
+Qed.
+
+(** a complete exchange over a link: success means the table holds (consumer mask set), and the
+    input ends up with the producer's mask *)
+Theorem exchange_sound : forall om og im ig r, im <> MUnset ->
+  exchange om og im ig = Some r ->
+  r = om /\ doc_accepts im ig om (match og with Some g => Some g | None => ig end).
+Proof.
+  intros om og im ig r Him H. unfold exchange in H.
+  destruct (accepts_mask om og im ig true); [|discriminate].
+  destruct (match og with Some g => Some g | None => ig end) as [g'|] eqn:Eg; [|discriminate].
+  destruct (is_unset om && is_unset im); [discriminate|].
+  destruct (accepts_mask im ig om (Some g') false) eqn:Ea; [|discriminate].
+  inversion H; subst. split; auto. apply accepts_consumer; auto.
+Qed.
+
+Theorem exchange_complete : forall om og im ig g', im <> MUnset ->
+  (match og with Some g => Some g | None => ig end) = Some g' ->
+  doc_accepts im ig om og -> doc_accepts im ig om (Some g') ->
+  exchange om og im ig = Some om.
+Proof.
+  intros om og im ig g' Him Eg H1 H2. unfold exchange.
+  assert (Ha1 : accepts_mask om og im ig true = true).
+  { unfold accepts_mask. rewrite compatible_direction.
+    apply acceptance_table in H1. rewrite H1. apply orb_true_r || (rewrite orb_true_r; reflexivity). }
+  rewrite Ha1, Eg.
+  assert (Hu : is_unset im = false) by (destruct im; auto; congruence).
+  rewrite Hu, andb_false_r.
+  apply (accepts_consumer im om ig (Some g') Him) in H2. rewrite H2. reflexivity.
+Qed.
+
+(** * Layouts: to_canonical is inverted by from_canonical, so "equal after to_canonical"
+      means "images of one and the same canonical mask" *)
+
+Fixpoint flips_idx (i : nat) (inc : list bool) (sh : shape) (idx : index) : index :=
+  match inc with
+  | [] => idx
+  | b :: r => let idx' := flips_idx (S i) r sh idx in if b then idx' else flip_idx i sh idx'
+  end.
+
+Lemma flip_loop_get : forall A inc i (a : arr A) idx,
+  aget (flip_loop i inc a) idx = aget a (flips_idx i inc (ashape a) idx).
+Proof.
+  induction inc as [|b r IH]; intros i a idx; simpl; auto.
+  rewrite IH. destruct b; simpl; reflexivity.
+Qed.
+
+Lemma flips_idx_in_range : forall inc i sh idx, in_range sh idx -> in_range sh (flips_idx i inc sh idx).
+Proof.
+  induction inc as [|b r IH]; intros i sh idx H; simpl; auto.
+  destruct b; auto. apply flip_idx_in_range. auto.
+Qed.
+
+Lemma flips_idx_flip_comm : forall inc i j sh idx,
+  flip_idx j sh (flips_idx i inc sh idx) = flips_idx i inc sh (flip_idx j sh idx).
+Proof.
+  induction inc as [|b r IH]; intros i j sh idx; simpl; auto.
+  destruct b; [apply IH|]. rewrite flip_idx_comm, IH. reflexivity.
+Qed.
+
+Lemma flips_idx_involutive : forall inc i sh idx, in_range sh idx ->
+  flips_idx i inc sh (flips_idx i inc sh idx) = idx.
+Proof.
+  induction inc as [|b r IH]; intros i sh idx H; simpl; auto.
+  destruct b; [apply IH; auto|].
+  rewrite <- flips_idx_flip_comm. rewrite IH by auto. apply flip_idx_involutive. auto.
+Qed.
+
+Theorem from_to_canonical : forall A g (a : arr A), arr_eq (from_canonical g (to_canonical g a)) a.
+Proof.
+  intros A g a. destruct g as [|r inc]; [apply arr_eq_refl|].
+  unfold from_canonical, to_canonical.
+  destruct (r && (1 <? length (ashape a))) eqn:E.
+  - rewrite !flip_loop_shape. simpl. rewrite rev_length, E. split; simpl.
+    + rewrite !flip_loop_shape. simpl. apply rev_involutive.
+    + rewrite !flip_loop_shape. simpl. intros idx Hi. rewrite rev_involutive in Hi.
+      rewrite !flip_loop_get, !flip_loop_shape. simpl.
+      rewrite flips_idx_involutive by (apply in_range_rev; auto).
+      rewrite rev_involutive. reflexivity.
+  - rewrite !flip_loop_shape, E. split; simpl.
+    + rewrite !flip_loop_shape. reflexivity.
+    + rewrite !flip_loop_shape. intros idx Hi.
+      rewrite !flip_loop_get, !flip_loop_shape.
+      rewrite flips_idx_involutive by auto. reflexivity.
 Qed.
